@@ -781,8 +781,67 @@ def _split_top(s):
     return None
 
 
+_ENUM_IS = re.compile(r"^(Option|Result)<.*> is (.*)$")
+_PRED = re.compile(r"^(is_some|is_none|is_ok|is_err)\((.*)\)=(T|F)$")
+
+
+def _shallow(expr, keep=2):
+    """`is_empty(collect(filter_map(enumerate())))` -> `is_empty(collect($))`: how a tested value was *derived* beyond two
+    levels of calls is not part of the condition (`.filter_map(f)` and `.filter(p).map(g)` give the same test)."""
+    def parse(i, level):
+        # returns (text, next index); parses one comma-separated argument list element starting at i
+        out = []
+        while i < len(expr):
+            ch = expr[i]
+            if ch == "(":
+                # the identifier just emitted is a callee name
+                j = len(out)
+                while j > 0 and (out[j - 1].isalnum() or out[j - 1] in "_:<>"):
+                    j -= 1
+                inner, i = parse_args(i + 1, level + 1)
+                if level + 1 > keep:
+                    del out[j:]
+                    out.append("$")
+                else:
+                    out.append("(" + inner + ")")
+                continue
+            if ch in ",)":
+                return "".join(out), i
+            out.append(ch)
+            i += 1
+        return "".join(out), i
+
+    def parse_args(i, level):
+        parts = []
+        while i < len(expr):
+            txt, i = parse(i, level)
+            parts.append(txt)
+            if i < len(expr) and expr[i] == ",":
+                i += 1
+                continue
+            if i < len(expr) and expr[i] == ")":
+                return ",".join(parts), i + 1
+        return ",".join(parts), i
+    txt, _ = parse(0, 0)
+    return txt
+
+
 def canon_guard(g):
-    """one spelling per comparison: `Gt(a,b)=F`, `Le(a,b)=T` and `Ge(b,a)=T` are the same condition."""
+    """one spelling per condition: `Gt(a,b)=F`, `Le(a,b)=T` and `Ge(b,a)=T` are the same comparison; `x.is_none()` true and
+    the `None` arm of a match on x are the same test; derivation chains deeper than two calls are not part of it."""
+    m = _ENUM_IS.match(g)
+    if m:
+        return "%s is %s" % (m.group(1), m.group(2))
+    m = _PRED.match(g)
+    if m:
+        pred, _arg, tv = m.groups()
+        t = tv == "T"
+        fam = "Option" if pred in ("is_some", "is_none") else "Result"
+        pos = pred in ("is_some", "is_ok")
+        variant = {("Option", True): "Some", ("Option", False): "None", ("Result", True): "Ok", ("Result", False): "Err"}[(fam, pos == t)]
+        return "%s is %s" % (fam, variant)
+    if g.endswith(("=T", "=F")) and "(" in g:
+        g = _shallow(g[:-2]) + g[-2:]
     m = _CMP.match(g)
     if not m:
         return g
